@@ -828,14 +828,14 @@ func skipSlow(r *mc.Run, e engine, i int) bool {
 
 func phaseGrid(r *mc.Run, c *checker, engs []engine) (gridPts []pt) {
 	offs := mc.Pick(r,
-		[]float64{0, -1, 1, -5, 5, -20, 20, -1000, 1000},
+		[]float64{0, -1, 1, -20, 20, -1000, 1000},
 		[]float64{0, -1, 1, -2, 2, -5, 5, -11, 11, -13, 13, -20, 20, -1000, 1000, -300000, 300000})
 	boxLons := mc.Pick(r, []float64{-180, -135, -45, 0, 45, 135, 180}, []float64{-180, -179.99, -135, -90, -45, 0, 45, 90, 135, 179.99, 180})
 	boxLats := mc.Pick(r, []float64{-90, -45, 0, 45, 90}, []float64{-90, -89.99, -45, 0, 45, 89.99, 90})
-	polyLons := mc.Pick(r, []float64{-180, -135, -45, 0, 45, 135, 180}, []float64{-180, -135, -90, -45, 0, 45, 90, 135, 180})
-	polyLats := []float64{-90, -89.99, -45, 0, 45, 89.99, 90}
-	triLons := mc.Pick(r, []float64{-180, -45, 0, 45, 135}, []float64{-180, -135, -45, 0, 45, 135, 180})
-	triLats := mc.Pick(r, []float64{-89.99, -45, 0, 45}, []float64{-89.99, -45, 0, 45, 89.99})
+	polyLons := mc.Pick(r, []float64{-180, -45, 45, 180}, []float64{-180, -135, -90, -45, 0, 45, 90, 135, 180})
+	polyLats := mc.Pick(r, []float64{-90, -89.99, -45, 0, 45, 89.99}, []float64{-90, -89.99, -45, 0, 45, 89.99, 90})
+	triLons := mc.Pick(r, []float64{-180, 0, 45, 135}, []float64{-180, -135, -45, 0, 45, 135, 180})
+	triLats := mc.Pick(r, []float64{-89.99, 0, 45}, []float64{-89.99, -45, 0, 45, 89.99})
 
 	edgeLons := append(append([]float64{}, boxLons...), polyLons...)
 	edgeLats := append(append([]float64{}, boxLats...), polyLats...)
@@ -1019,6 +1019,14 @@ func phaseCentres(r *mc.Run, c *checker, engs []engine) (edgePts []pt) {
 		edgePts = append(edgePts, mine...)
 		mu.Unlock()
 		size := len(docs) + 10
+		// quick tier: building a gtreap index costs ~1 s of CPU per centre, and a circle of
+		// thousands of kilometres ~10^5 dictionary probes without the plugin; upsidedown runs the
+		// same searcher code as plugin-less scorch, so quick gives upsidedown every fourth centre
+		// and plugin-less scorch the two largest radii from every fourth centre (thorough: all).
+		engs := engs
+		if r.Quick() && ci%4 != 2 {
+			engs = engs[:2]
+		}
 		idxs := make([]bleve.Index, len(engs))
 		for i, e := range engs {
 			idxs[i] = build(e, docs)
@@ -1040,6 +1048,9 @@ func phaseCentres(r *mc.Run, c *checker, engs []engine) (edgePts []pt) {
 			rep := map[string]any{"shape": fmt.Sprintf("circle centre=(%v,%v) radius=%s", ctr.Lon, ctr.Lat, rad.label),
 				"query": "NewGeoDistanceQuery(lon, lat, distance)", "lon": ctr.Lon, "lat": ctr.Lat, "distance": rad.label, "field": "loc"}
 			for ei, e := range engs {
+				if r.Quick() && rad.m >= 5e6 && e.name == "scorch" && ci%4 != 0 {
+					continue
+				}
 				q := bleve.NewGeoDistanceQuery(ctr.Lon, ctr.Lat, rad.label)
 				q.SetField("loc")
 				req := bleve.NewSearchRequest(q)
@@ -1063,7 +1074,7 @@ func phaseCentres(r *mc.Run, c *checker, engs []engine) (edgePts []pt) {
 		}
 		// and over the hits of a large circle (sort applied to a geo query)
 		for ei, e := range engs {
-			q := bleve.NewGeoDistanceQuery(ctr.Lon, ctr.Lat, "5000km")
+			q := bleve.NewGeoDistanceQuery(ctr.Lon, ctr.Lat, "1000km")
 			q.SetField("loc")
 			c.sortCheck(e.name, idxs[ei], ctr, false, byID, size, q)
 		}
@@ -1080,7 +1091,7 @@ func (c *checker) sortCheck(eng string, idx bleve.Index, origin pt, desc bool, b
 	if q == nil {
 		q = bleve.NewMatchAllQuery()
 	} else {
-		qs = "geo distance 5000km around the origin"
+		qs = "geo distance 1000km around the origin"
 		kind += "-of-circle"
 	}
 	so, err := search.NewSortGeoDistance("loc", "m", origin.Lon, origin.Lat, desc)
